@@ -74,3 +74,53 @@ def mh_diff(workdir, iters, seed, repo=REPO):
             cases = int(tok[6:])
     return {"ok": r.returncode == 0, "text": r.stdout, "calls": cases, "cases": cases, "wall_s": time.time() - t0,
             "cmd": "mh_diff %d %d" % (iters, seed)}
+
+
+def mgr_diff(workdir, ops, maxblk, seed, repo=REPO):
+    """bounded contract check of every lane manager family named by the context files of the working tree"""
+    import glob
+    import re
+    from . import misc_jobs
+    os.makedirs(workdir, exist_ok=True)
+    inv = misc_jobs.writable_inventory(os.path.join(workdir, "objs"), repo)  # builds every object
+    if inv["build_failures"]:
+        raise RuntimeError("library objects did not build: %s" % inv["build_failures"][0][0])
+    fams, calls = [], []
+    spec = {"sha1": ("ISAL_SHA1", 64, 20, "ref_sha1"), "sha256": ("ISAL_SHA256", 64, 32, "ref_sha256"),
+            "sha512": ("ISAL_SHA512", 128, 64, "ref_sha512"), "md5": ("ISAL_MD5", 64, 16, "ref_md5"), "sm3": ("ISAL_SM3", 64, 32, "ref_sm3")}
+    for p in sorted(glob.glob(os.path.join(repo, "*_mb", "*_ctx_*.c"))):
+        if "_base" in os.path.basename(p):
+            continue
+        t = open(p).read()
+        alg = os.path.basename(p).split("_ctx_")[0]
+        fam = os.path.basename(p)[len(alg) + 5:-2]
+        i = re.search(r"\b(_?%s_[sm]b_mgr_init_\w+)\s*\(" % alg, t)
+        s = set(re.findall(r"\b(_?%s_[sm]b_mgr_submit_\w+)\s*\(\s*&mgr->mgr" % alg, t))
+        f = set(re.findall(r"\b(_?%s_[sm]b_mgr_flush_\w+)\s*\(\s*&mgr->mgr" % alg, t))
+        if not i or len(s) != 1 or len(f) != 1:
+            raise RuntimeError("%s: manager entry points not identified" % p)
+        P, blk, dig, ref = spec[alg]
+        name = "%s_%s" % (alg, fam)
+        fams.append("FAMILY_TEST(%s, %s_JOB, %s_MB_JOB_MGR, %s, %s, %s, %d, %d, %s)" % (name, P, P, i.group(1), s.pop(), f.pop(), blk, dig, ref))
+        calls.append("        bad |= test_%s(ops, maxblk);" % name)
+    # duplicate prototypes of shared init/submit symbols are harmless (same types)
+    src = open(os.path.join(VERIF, "native", "mgr_diff_tmpl.c")).read().replace("@FAMILIES@", "\n".join(fams)).replace("@CALLS@", "\n".join(calls))
+    cpath = os.path.join(workdir, "mgr_diff.c")
+    with open(cpath, "w") as fh:
+        fh.write(src)
+    objs = sorted(glob.glob(os.path.join(workdir, "objs", "*.o")))
+    exe = os.path.join(workdir, "mgr_diff")
+    r = subprocess.run(["gcc", "-O1", "-w", "-I" + os.path.join(repo, "include"), cpath] + objs + ["-o", exe], capture_output=True, text=True)
+    if r.returncode:
+        raise RuntimeError("link failed: " + r.stderr[-800:])
+    t0 = time.time()
+    r = subprocess.run([exe, str(ops), str(maxblk), str(seed)], capture_output=True, text=True, timeout=3000)
+    calls_n = cases = 0
+    for tok in r.stdout.split():
+        if tok.startswith("calls="):
+            calls_n = int(tok[6:])
+        if tok.startswith("cases="):
+            cases = int(tok[6:])
+    return {"ok": r.returncode == 0, "text": r.stdout + ("\n[crashed: exit %d]" % r.returncode if r.returncode not in (0, 1) else ""),
+            "calls": calls_n, "cases": cases, "wall_s": time.time() - t0, "families": len(fams),
+            "cmd": "mgr_diff %d %d %d" % (ops, maxblk, seed)}
